@@ -50,12 +50,24 @@ def run_iban(shard, mon, S):
         if any(c > 1 for c in cover):
             mon.viol("fields_overlap", {"country": cc, "positions": {k: list(v) for k, v in pos.items()}}, "disjoint", "overlap")
         rng = env.rng("C11", cc)
-        for text in gen.valid_ibans(cc, spec, rng, SIZES[shard["tier"]]["per_country"]):
+        texts = gen.valid_ibans(cc, spec, rng, SIZES[shard["tier"]]["per_country"])
+        # every *accepted* IBAN must decompose and re-assemble: also offer the mod-97 aliases of the
+        # computed digits and neighbouring digits; whatever the library accepts is decomposed too
+        extra = []
+        for t in texts[:6]:
+            d = int(t[2:4])
+            for alt in (d + 97, d - 97, d + 1, d - 1, 0, 1, 99):
+                if 0 <= alt <= 99 and alt != d:
+                    extra.append(t[:2] + f"{alt:02d}" + t[4:])
+        for text in texts + extra:
             o = observe(S.IBAN, text)
             mon.ev()
             if not o.ok:
-                mon.viol("reference_valid_iban_rejected", {"iban": text}, "ACCEPT", o.brief())
+                if text in texts:
+                    mon.viol("reference_valid_iban_rejected", {"iban": text}, "ACCEPT", o.brief())
                 continue
+            if text not in texts:
+                mon.tally("accepted_non_reference_iban_decomposed")
             ib = o.value
             s = str(ib)
             bban = s[4:]
